@@ -73,8 +73,8 @@ func buildHistRoles(c *Ctx) *histRoles {
 
 func (r *histRoles) side(parent *ssa.Function, sym map[int]string) sibSide {
 	s := sibSide{parent: parent, sym: sym}
-	if parent != nil {
-		s.closure = r.m.traversal(parent)
+	if ti := r.m.traversalInfo(parent); ti != nil {
+		s.closure, s.posIdx, s.pass = ti.fn, ti.posIdx, ti.pass
 	}
 	return s
 }
@@ -422,12 +422,13 @@ func histAuditCodec(c *Ctx, rule string) {
 	// --- writer
 	format, sep := "", ""
 	okW := false
-	eachInstr(ser, func(in ssa.Instruction) {
+	serRg := p.RegionOf(ser, 2) // the key rendering may live in a helper of the package
+	serRg.Instrs(func(site regionSite, in ssa.Instruction) {
 		cc := callCommon(in)
 		if cc == nil || !isCallToFunc(cc, "fmt", "Sprintf") {
 			return
 		}
-		t := p.TermOf(in.(ssa.Value))
+		t := serRg.Term(site, in.(ssa.Value))
 		if len(t.Args) != 2 || t.Args[0].Op != "const" || t.Args[1].Op != "list" || len(t.Args[1].Args) != 2 {
 			return
 		}
@@ -448,7 +449,8 @@ func histAuditCodec(c *Ctx, rule string) {
 		pos    ssa.Instruction
 	}
 	var cps []cp
-	eachInstr(par, func(in ssa.Instruction) {
+	parRg := p.RegionOf(par, 2)
+	parRg.Instrs(func(site regionSite, in ssa.Instruction) {
 		cc := callCommon(in)
 		if cc == nil {
 			return
@@ -456,7 +458,7 @@ func histAuditCodec(c *Ctx, rule string) {
 		if b, ok := cc.Value.(*ssa.Builtin); !ok || b.Name() != "copy" {
 			return
 		}
-		dst, src := p.TermOf(cc.Args[0]), p.TermOf(cc.Args[1])
+		dst, src := parRg.Term(site, cc.Args[0]), parRg.Term(site, cc.Args[1])
 		if dst.Op == "slice" && dst.Args[1].Op == "const" && dst.Args[2].Op == "const" {
 			cps = append(cps, cp{dst.Args[1].Name, dst.Args[2].Name, src, in})
 		}
